@@ -696,11 +696,12 @@ func (f *File) Truncate(size int64) error {
 	}
 
 	if size > oldSize {
-		if err := f.writeBuf.Truncate(0); err != nil {
+		// Keep the existing content and pad it with zeros
+		if _, err := f.writeBuf.Seek(0, io.SeekEnd); err != nil {
 			return err
 		}
 
-		for i := int64(0); i < size; i++ {
+		for i := oldSize; i < size; i++ {
 			if _, err := f.writeBuf.Write(make([]byte, 1)); err != nil {
 				return err
 			}
